@@ -16,6 +16,7 @@ import (
 	"github.com/elastos/Elastos.ELA/p2p"
 	"github.com/elastos/Elastos.ELA/p2p/msg"
 
+	elacommon "github.com/elastos/Elastos.ELA/common"
 	pg "github.com/elastos/Elastos.ELA/core/contract/program"
 	"verifharness/lib"
 )
@@ -174,6 +175,7 @@ func Decoders() []Decoder {
 	ds = append(ds, plain(7, "payload.Confirm.Deserialize", func() serializable { return &payload.Confirm{} }, nil))
 	ds = append(ds, plain(8, "payload.DPOSProposal.Deserialize", func() serializable { return &payload.DPOSProposal{} }, nil))
 	ds = append(ds, plain(9, "payload.DPOSProposalVote.Deserialize", func() serializable { return &payload.DPOSProposalVote{} }, nil))
+	ds = append(ds, primitiveDecoders()...)
 	ds = append(ds, outputDecoder(30, true), outputDecoder(31, false))
 	ds = append(ds, plain(32, "common.Attribute.Deserialize", func() serializable { return &common2.Attribute{} },
 		func(rng *lib.Rng, o serializable) { o.(*common2.Attribute).Usage = AttrUsages[rng.Intn(len(AttrUsages))] }))
@@ -299,4 +301,58 @@ func Decoders() []Decoder {
 		}
 	}
 	return ds
+}
+
+// VarintBoundaries are the width boundaries of the canonical varint.
+var VarintBoundaries = []uint64{0, 1, 0xfc, 0xfd, 0xfe, 0xff, 0x100, 0xfffe, 0xffff, 0x10000, 0x10001,
+	0xfffffffe, 0xffffffff, 0x100000000, 0x100000001, 1<<63 - 1, 1 << 63, 1<<64 - 1}
+
+// primitiveDecoders expose common.ReadVarUint / ReadVarBytes / ReadVarString
+// directly (ids 20..22), seeded at the varint width boundaries.
+func primitiveDecoders() []Decoder {
+	pick := func(rng *lib.Rng) uint64 {
+		if rng.Chance(75) {
+			return VarintBoundaries[rng.Intn(len(VarintBoundaries))]
+		}
+		return rng.U64() >> uint(rng.Intn(64))
+	}
+	lens := []int{0, 1, 32, 33, 0xfc, 0xfd, 0xfe}
+	return []Decoder{
+		{ID: 20, Name: "common.ReadVarUint",
+			Decode: func(r io.Reader) (Reenc, error) {
+				v, err := elacommon.ReadVarUint(r, 0)
+				if err != nil {
+					return nil, err
+				}
+				return func(w io.Writer) error { return elacommon.WriteVarUint(w, v) }, nil
+			},
+			Seed: func(rng *lib.Rng) []byte {
+				v := pick(rng)
+				return ser(func(w io.Writer) error { return elacommon.WriteVarUint(w, v) })
+			}},
+		{ID: 21, Name: "common.ReadVarBytes(33)",
+			Decode: func(r io.Reader) (Reenc, error) {
+				b, err := elacommon.ReadVarBytes(r, 33, "field")
+				if err != nil {
+					return nil, err
+				}
+				return func(w io.Writer) error { return elacommon.WriteVarBytes(w, b) }, nil
+			},
+			Seed: func(rng *lib.Rng) []byte {
+				b := rng.Bytes(lens[rng.Intn(4)])
+				return ser(func(w io.Writer) error { return elacommon.WriteVarBytes(w, b) })
+			}},
+		{ID: 22, Name: "common.ReadVarString",
+			Decode: func(r io.Reader) (Reenc, error) {
+				s, err := elacommon.ReadVarString(r)
+				if err != nil {
+					return nil, err
+				}
+				return func(w io.Writer) error { return elacommon.WriteVarString(w, s) }, nil
+			},
+			Seed: func(rng *lib.Rng) []byte {
+				b := rng.Bytes(lens[rng.Intn(len(lens))])
+				return ser(func(w io.Writer) error { return elacommon.WriteVarString(w, string(b)) })
+			}},
+	}
 }
